@@ -136,3 +136,20 @@ Definition ex10_strm (n : N) : B64 := zero B64.
 Definition ex10_f : integrand B64 := fun o => mk_iret (if N.eqb (o_idx o) 0 then div B64 (zero B64) (zero B64) else if N.eqb (o_idx o) 1 then zero B64 else one B64) [] false.
 Lemma c10_example : match plain_iteration ex10_strm [] ex10_f 3 5 7 0 with Ok (r, g', idx', _) => g' = 22%N /\ r_nz (p_main r) = 4%N /\ r_fin (p_main r) = 3%N | UB _ => False end.
 Proof. vm_compute. repeat split; reflexivity. Qed.
+
+(** the usage predictor after the repair: count what std::generate_canonical takes from an engine that always returns min() *)
+Section Usage.
+  Variable raw : Type.
+  (* std::generate_canonical as a black box: the number of engine outputs it takes, given the stream of outputs it would see *)
+  Variable draws : (nat -> raw) -> nat.
+  Variable lo : raw.
+  Definition predicted_usage : nat := draws (fun _ => lo).
+  Lemma usage_is_cost : (forall s1 s2, draws s1 = draws s2) -> forall s, draws s = predicted_usage.
+  Proof. intros H s. unfold predicted_usage. apply H. Qed.
+End Usage.
+
+Definition standard_draws (raw : Type) (b log2r : N) (_ : nat -> raw) : nat := N.to_nat (N.max 1 ((b + log2r - 1) / log2r)).
+Lemma usage_standard (raw : Type) (lo : raw) (b log2r : N) (s : nat -> raw) :
+  standard_draws raw b log2r s = predicted_usage raw (standard_draws raw b log2r) lo /\
+  standard_draws raw b log2r s = N.to_nat (N.max 1 ((b + log2r - 1) / log2r)).
+Proof. split; reflexivity. Qed.
